@@ -74,7 +74,8 @@ def build_and_validate_headers(headers: Iterable[Tuple[bytes, bytes]]) -> List[T
             # Note bytes(5) is five NUL bytes, not an error
             raise TypeError("Header names and values must be bytes")
         name, value = bytes(name), bytes(value)
-        if name[:1] == b":":
+        if name.strip()[:1] == b":":
+            # Judged as it will be sent (see the strip below)
             raise ValueError("Pseudo headers are not valid")
         if any(char in name or char in value for char in (b"\r", b"\n", b"\x00")):
             raise ValueError("Headers must not contain CR, LF or NUL")
